@@ -9,7 +9,9 @@ echo "== worktree state"; git status --short | head
 echo "== demo WITH change (expect failure)"
 cargo test --offline -p ord --lib "$FILTER" 2>&1 | grep -E "^test |^test result" | head -8
 echo "== full suite WITH change"
-cargo test --workspace --no-fail-fast --offline > $WT/suite_confirm.log 2>&1
+# resume_suspended can hang forever on a loaded machine: it is run on its own, under a timeout
+timeout 7200 cargo test --workspace --no-fail-fast --offline -- --skip resume_suspended > $WT/suite_confirm.log 2>&1
+timeout 600 cargo test --offline -p ord --test integration resume_suspended >> $WT/suite_confirm.log 2>&1
 python3 - "$WT/suite_confirm.log" "$FILTER" <<'PY'
 import json,re,sys
 out=open(sys.argv[1]).read(); flt=sys.argv[2]
